@@ -87,6 +87,15 @@ def gen_docs(tier, seed, tmpl):
     for kv in [None, 1, "x", True, {}, {"kty": "oct", "k": "AAAA"}, 1.5, [], [[]], [[{"kty": "oct", "k": "AAAA"}]]]:
         docs.append((None, json.dumps({"keys": kv}).encode()))
         docs.append((0, json.dumps({"keys": kv, "kty": "oct", "k": "AAAA"}).encode()))
+    # base64url members carrying '=' padding (correct, short, excessive) or surrounded by blanks: the item is bad or usable, never silent
+    for t in tmpl:
+        for m in ("k", "n", "e", "d", "x", "y", "p", "q", "dp", "dq", "qi"):
+            if isinstance(t.get(m), str):
+                v = t[m]
+                for v2 in (v + "=" * ((-len(v)) % 4), v + "=", v + "==", v + "===", "=" + v, v + " ", " " + v, v[:-1] + "=", v + "\n"):
+                    if v2 != v:
+                        docs.append((None, json.dumps(dict(t, **{m: v2})).encode()))
+                        docs.append((None, json.dumps({"keys": [dict(tmpl[0], kid="first"), dict(t, **{m: v2}, kid="pad"), dict(tmpl[0], kid="last")]}).encode()))
     # 4. documents that are JSON but not objects, non-JSON text, random bytes, truncations
     for t in [b"", b" ", b"null", b"1", b"\"str\"", b"[]", b"[{\"kty\":\"oct\",\"k\":\"AAAA\"}]", b"{", b"}", b"{\"kty\":\"oct\",\"k\":\"AAAA\"}x",
               b"{\"kty\":\"oct\",\"k\":\"AAAA\"} ", b"\xef\xbb\xbf{}", b"{'kty':'oct'}", b"{\"kty\":\"oct\",}", b"NaN", b"{\"a\":NaN}", b"{\"a\":1e400}",
